@@ -171,6 +171,10 @@ def prepare(root, seed):
         _atomic(p, random.Random(f"{seed}/C18/plsame/{q}").randbytes(7 + q))
         inputs.append(f"#uri0_{q},{p}")
     ops.append({"op": "cache-payloads", "id": "cache-payloads-sameuris", "inputs": inputs, "eb": 32})
+    # the same <URI>,<FILE> value given twice among others: whatever the tool does with it (today: refuses the duplicate
+    # URI) must be the same under every hash seed and history
+    ops.append({"op": "cache-payloads", "id": "fail-cache-payloads-repeated-input",
+                "inputs": [inputs[0], inputs[1], inputs[2], inputs[0]], "eb": 8})
     ops.append({"op": "mpi-generate", "id": "mpi-generate-sameclass", "vendor": "acme.org", "cls": "nRF54H20_sample_root",
                 "addr": 0x1000, "size": 48, "dp": True, "iu": True, "sv": None})
     # an envelope with several dependencies matched by the dependency pattern, each contributing payloads
